@@ -15,6 +15,8 @@ RULE = (
     "interpreter instances and to a Python session model: define, assign, "
     "read, define/call a function that mutates a global, a call that fails "
     "after a partial definition, a syntax error, a loop aborted by an error, "
+    "loops (completed, left by break, aborted) whose variable has the name "
+    "of a session variable, "
     "and `require` of a good module (with a load marker and mutable state), "
     "a module that depends on it, a missing module, a module that fails "
     "half-way, a syntactically broken module, a circular pair, and modules "
@@ -144,6 +146,12 @@ class SessionModel:
         if op == "loop":
             self.vars[f"w{cmd[1]}"] = [1, 2]
             return ("error", "stop", "")
+        if op == "forvar":
+            # a loop whose variable has the name of a session variable: the
+            # variable is what it was before, defined or not
+            return ("value", 1, "")
+        if op == "forvarfail":
+            return ("error", "ERROR", "")
         if op == "require":
             m = cmd[1]
             if m == "good":
@@ -224,6 +232,12 @@ def source(cmd, who=0):
         k = cmd[1]
         return (f"def w{k} = []; for i in [1, 2, 3] do append(w{k}, i); "
                 f"if i == 2 then do error 'stop' end; end")
+    if op == "forvar":
+        k = cmd[1]
+        return f"for v{k} in [7, 8] do v{k} end; for v{k} in 'ab' do break end; 1"
+    if op == "forvarfail":
+        k = cmd[1]
+        return f"for v{k} in [7, 8] do 1 / 0 end"
     if op == "require":
         return {
             "good": "require goodm; goodm->bump()",
@@ -343,9 +357,10 @@ def prop(case):
 # --------------------------------------------------------------------- parts
 
 CORE = [("def", 1, 5), ("read", 1), ("partial", 1, 7, 2), ("syntax",),
+        ("forvar", 1),
         ("require", "good"), ("require", "broken"), ("require", "cycle"),
         ("require", "missing")]
-FAILING = {"partial", "syntax", "loop"}
+FAILING = {"partial", "syntax", "loop", "forvarfail"}
 
 
 def nontrivial(history):
@@ -354,7 +369,8 @@ def nontrivial(history):
     for i, (who, cmd) in enumerate(history):
         whos.add(who)
         key = None
-        if cmd[0] in ("def", "assign", "read", "call", "partial"):
+        if cmd[0] in ("def", "assign", "read", "call", "partial", "forvar",
+                      "forvarfail"):
             key = ("v", cmd[1])
         elif cmd[0] in ("loop", "readlist"):
             key = ("w", cmd[1])
@@ -421,10 +437,12 @@ def part_exhaustive_two(part, length, shard, nshards):
 def gen_cmd(ch):
     k = ch.weighted([(3, "def"), (2, "assign"), (3, "read"), (1, "deffn"),
                      (2, "call"), (2, "partial"), (1, "syntax"), (2, "loop"),
-                     (1, "readlist"), (6, "require")])
+                     (1, "readlist"), (6, "require"), (2, "forvar"),
+                     (1, "forvarfail")])
     if k in ("def", "assign"):
         return (k, ch.int(1, 3), ch.int(0, 50))
-    if k in ("read", "deffn", "call", "loop", "readlist"):
+    if k in ("read", "deffn", "call", "loop", "readlist", "forvar",
+             "forvarfail"):
         return (k, ch.int(1, 3))
     if k == "partial":
         return (k, ch.int(1, 3), ch.int(0, 50), ch.int(1, 3))
